@@ -29,7 +29,7 @@ func init() {
 			"connection is read by prefetch under a read deadline) with unlimited data ready at the client. The scripted client connection stamps the entry of the first underlying read (t0) and the return of " +
 			"every read (tau_i, cumulative bytes C_i). oracle (one-sided, sound under any load): with t0 = span entry + latency (no token can be taken earlier), C_i <= burst + rate*(tau_i - t0) + 1 per connection; for the total limiter the same on the merged " +
 			"stream of all connections; t0 - (span entry) >= latency; bytes the sink read are exactly the prefix of the client's stream that was pulled. non-trivial = >=3 reads observed; " +
-			"distinct = hash(all run parameters). layouts: throttle and consumer in one route / throttle alone in a non-terminal route / throttle in a subroute (the stream is read after the handler returned) / a matcher in front of the throttle (prefetched bytes must not be lost). storm rounds: eight connections with a full burst ready enter a full total limiter together; one burst (+ rate x T) may be read. own-route layout may put a matcher (1-200 bytes) in the route that follows the throttle handler's route: the first read is then the matching phase's prefetch.",
+			"distinct = hash(all run parameters). layouts: throttle and consumer in one route / throttle alone in a non-terminal route / throttle in a subroute (the stream is read after the handler returned) / a matcher in front of the throttle (prefetched bytes must not be lost). storm rounds: eight connections with a full burst ready enter a full total limiter together; one burst (+ rate x T) may be read. own-route layout may put a matcher (1-200 bytes) in the route that follows the throttle handler's route: the first read is then the matching phase's prefetch. clients with everything ready may write it in segments of 100..4000 bytes (short reads with more data right behind them, reader buffers larger than the burst). a second throttle handler may follow the first (same route or inside a subroute behind it): the bound of each handler holds.",
 		Assumptions: []string{
 			"unless a run says otherwise no matcher precedes the handler, so every underlying read is a throttled read; in pre-match runs the reads made for matching (before the handler chain is entered) are left out of the bound",
 			"observer clock is read after each read returns, so delays can only hide violations",
@@ -82,6 +82,15 @@ type Run struct {
 
 	Matcher        int `json:"matcher,omitempty"`
 	MatchTimeoutMs int `json:"match_timeout_ms,omitempty"`
+
+	// Seg > 0: the clients that have everything ready write it in segments of this many bytes (all queued at once), so a
+	// read asked for one batch often returns the rest of a segment instead (a short read with more data right behind it)
+	Seg int `json:"seg,omitempty"`
+	// Rate2 > 0: a second throttle handler (per-connection limit Rate2 / Burst2) follows the first one in the chain
+	// (same route, or the first in front of a subroute and the second inside it): both bounds hold
+	Rate2       float64 `json:"rate2,omitempty"`
+	Burst2      int     `json:"burst2,omitempty"`
+	SecondInSub bool    `json:"second_in_subroute,omitempty"`
 }
 
 // special runs that are always part of the list: both limiters with the total limiter binding, with and without
@@ -103,6 +112,12 @@ var specials = []*Run{
 	{Rate: 0, Burst: 0, TotalRate: 2048, TotalBurst: 0, BufSize: 32 << 10, Conns: 2, DurationMs: 700},
 	// the stream is read after the throttle handler's Handle has returned
 	{Rate: 2000, Burst: 200, BufSize: 512, Conns: 2, DurationMs: 900, Layout: "own-route"},
+	// short reads with more data behind them, reader buffer larger than the burst
+	{Rate: 20000, Burst: 1000, BufSize: 32 << 10, Conns: 2, DurationMs: 1200, Seg: 1500},
+	{Rate: 0, TotalRate: 20000, TotalBurst: 1000, BufSize: 32 << 10, Conns: 2, DurationMs: 1200, Seg: 1300},
+	// two throttle handlers in a row: the slower one has the larger burst
+	{Rate: 5000, Burst: 20000, Rate2: 20000, Burst2: 1000, BufSize: 32 << 10, Conns: 1, DurationMs: 1200},
+	{Rate: 20000, Burst: 1000, Rate2: 5000, Burst2: 20000, BufSize: 512, Conns: 2, DurationMs: 1200, SecondInSub: true},
 	{Rate: 2000, Burst: 200, LatencyMs: 120, BufSize: 512, Conns: 2, DurationMs: 900, Layout: "own-route", NextMatch: 16},
 	{Rate: 0, TotalRate: 3000, TotalBurst: 250, BufSize: 512, Conns: 2, DurationMs: 900, Layout: "own-route", NextMatch: 1},
 	{Rate: 0, TotalRate: 4000, TotalBurst: 300, BufSize: 512, Conns: 3, DurationMs: 900, Layout: "subroute"},
@@ -177,7 +192,22 @@ func genRun(seed int64, i int) *Run {
 	case 2:
 		ru.PreMatch = []int{1, 100, 2000, 5000}[r.Intn(4)]
 	}
-	if r.Intn(5) == 0 && ru.Layout == "" && ru.PreMatch == 0 {
+	r2 := fw.Rand(seed, "c17extra", i)
+	if r2.Intn(3) == 0 {
+		ru.Seg = []int{1500, 1300, 700, 4000, 100}[r2.Intn(5)]
+	}
+	if r2.Intn(5) == 0 && ru.Rate > 0 && ru.Layout == "" && ru.PreMatch == 0 {
+		ru.Rate2 = rates[r2.Intn(len(rates))]
+		ru.Burst2 = []int{1, 100, int(ru.Rate2), 64 << 10, 0}[r2.Intn(5)]
+		if ru.BufSize == 1 && ru.Rate2 > 100*1024 {
+			ru.Rate2 = 100 * 1024
+			if ru.Burst2 > int(ru.Rate2) {
+				ru.Burst2 = int(ru.Rate2)
+			}
+		}
+		ru.SecondInSub = r2.Intn(2) == 0
+	}
+	if r.Intn(5) == 0 && ru.Layout == "" && ru.PreMatch == 0 && ru.Rate2 == 0 {
 		ru.Matcher = []int{100, 3000, 8000}[r.Intn(3)]
 		ru.MatchTimeoutMs = []int{200, 600, 3000}[r.Intn(3)]
 	}
@@ -246,6 +276,18 @@ func execute(c *fw.Ctx, ru *Run) {
 			"handle": []any{last}}}}
 	}
 	span := map[string]any{"handler": "verif_span", "name": "span"}
+	var th2 any
+	if ru.Rate2 > 0 {
+		t2 := map[string]any{"handler": "throttle", "read_bytes_per_second": ru.Rate2}
+		if ru.Burst2 > 0 {
+			t2["read_burst_size"] = ru.Burst2
+		}
+		if ru.SecondInSub {
+			last = map[string]any{"handler": "subroute", "routes": []any{map[string]any{"handle": []any{t2, last}}}}
+		} else {
+			th2 = t2
+		}
+	}
 	var routeList []any
 	switch ru.Layout {
 	case "own-route":
@@ -259,6 +301,9 @@ func execute(c *fw.Ctx, ru *Run) {
 			map[string]any{"handler": "subroute", "routes": []any{map[string]any{"handle": []any{th}}}}, last}}}
 	default:
 		rt := map[string]any{"handle": []any{span, th, last}}
+		if th2 != nil {
+			rt["handle"] = []any{span, th, th2, last}
+		}
 		if ru.PreMatch > 0 {
 			rt["match"] = []any{map[string]any{"verif_m1": map[string]any{"id": "pre", "need": ru.PreMatch, "at": 0, "eq": 256, "neg": true, "pattern": "peek"}}}
 		}
@@ -321,6 +366,10 @@ func execute(c *fw.Ctx, ru *Run) {
 					time.Sleep(20 * time.Millisecond)
 				}
 			}(cs)
+		} else if ru.Seg > 0 {
+			for off := 0; off < len(cs.stream); off += ru.Seg {
+				_, _ = cs.client.Write(cs.stream[off:min(off+ru.Seg, len(cs.stream))]) // all queued at once, segment by segment
+			}
 		} else {
 			_, _ = cs.client.Write(cs.stream) // everything is readable at once
 		}
@@ -392,6 +441,22 @@ func execute(c *fw.Ctx, ru *Run) {
 				allowed := burst + ru.Rate*(s.t-t0).Seconds() + 1
 				if float64(cum) > allowed {
 					report("per-connection-rate-exceeded", fmt.Sprintf("%d bytes had been read from one client %v after its first read; burst %v + rate %v B/s allows %.0f", cum, s.t-t0, burst, ru.Rate, allowed),
+						map[string]any{"cum": cum, "elapsed": (s.t - t0).String()})
+					break
+				}
+			}
+		}
+		if ru.Rate2 > 0 {
+			burst2 := float64(ru.Burst2)
+			if ru.Burst2 == 0 {
+				burst2 = float64(int(ru.Rate2) + 1)
+			}
+			cum := 0
+			for _, s := range samples {
+				cum += s.n
+				allowed := burst2 + ru.Rate2*(s.t-t0).Seconds() + 1
+				if float64(cum) > allowed {
+					report("per-connection-rate-exceeded [second throttle handler of the chain]", fmt.Sprintf("%d bytes had been read from one client %v after its first read; the second handler's burst %v + rate %v B/s allows %.0f", cum, s.t-t0, burst2, ru.Rate2, allowed),
 						map[string]any{"cum": cum, "elapsed": (s.t - t0).String()})
 					break
 				}
